@@ -18,7 +18,7 @@ rule = ("scripts = 'p fmt <description> <sect flags> <opt flags>' then groups of
         "character (7 descriptions) x option names of 1..300 bytes around the path buffer's allocation steps x empty / "
         "short values (the recording handler reads every value and checks that it lies in the stored data); stream 2c = a section path of EVERY length 1..330 (thorough 1..1400, crossing the path buffer capacities 64, 192, 320, ...) "
         "with an anonymous section / empty-named element / named section / option inside; stream 3 = grammar-generated files mutated by delete/duplicate/flip x name flag sets x handler "
-        "refusals x pre-populated target trees x read errors; non-trivial = a script in which the real code "
+        "refusals x pre-populated target trees x read errors, each file also through mpt_node_parse (stdio stream, name restriction texts, with and without logger) and default-format files through mpt_parse_folder; non-trivial = a script in which the real code "
         "delivered at least one element to the handler or built a node (event list / tree not empty), counted "
         "per distinct script")
 assumptions = [
@@ -274,6 +274,9 @@ GRAMMARS = [
 ROOTS = [None, None, None, "61", "61(62=31),63=32", "736563(61=39),736563(7a),62=31", "-(61=31),-=32"]
 
 
+LIMITS = ["null", "null", hx("ns"), hx("ENSWFCBenswfcb"), "-", hx("E"), hx("Es w"), hx("z"), hx("sS\tx")]
+
+
 def _mutate(r, text, alpha):
     b = bytearray(text.encode("latin-1"))
     for _ in range(r.choice([0, 1, 1, 2, 3])):
@@ -318,6 +321,12 @@ def grammar(tier, seed, scale):
             if r.random() < 0.2:
                 # parse a second time into the tree just built: merge of a tree with itself
                 lines.append("p node")
+            if r.random() < 0.5:
+                # the stdio front end: replaces instead of merging, puts the old children back on failure
+                lines.append("p root " + (r.choice(ROOTS[3:]) if r.random() < 0.8 else "."))
+                lines.append("p nparse %s %s" % (r.choice(LIMITS), r.choice(["log", "nolog", "nolog"])))
+            if desc is None and end == "" and r.random() < 0.3:
+                lines.append("p folder")
             k += 1
         lines.append("p end")
         out.append(("gram:%d" % k, lines))
